@@ -147,6 +147,10 @@ func (e *CritEnv) Leaf(t *rapid.T) *cs.Crit {
 		}
 	case "like":
 		c.Pattern = rapid.SampledFrom(likePatterns).Draw(t, "pattern")
+		if rapid.IntRange(0, 2).Draw(t, "fresh-pattern") == 0 {
+			// a pattern that has (most likely) never been used before in this process
+			c.Pattern = rapid.StringMatching(`[abé]{0,2}(\.\*|\|[a-c]{1,4}|[a-c]{1,3})`).Draw(t, "pattern-fresh")
+		}
 	case "func":
 		c.Field = ""
 		c.Func = rapid.SampledFrom([]string{"always", "hasY", "never", "xIsNumber", "xIsString"}).Draw(t, "func")
@@ -182,10 +186,13 @@ func (e *CritEnv) pair(t *rapid.T) *cs.Crit {
 		return &cs.Crit{Op: rapid.SampledFrom(cmp).Draw(t, label), Field: f, Arg: &oo}
 	}
 	a, b := mk("pair-a"), mk("pair-b")
+	if rapid.IntRange(0, 2).Draw(t, "pair-same-op") == 0 {
+		b.Op = a.Op
+	}
 	if rapid.IntRange(0, 4).Draw(t, "pair-neg") == 0 {
 		a = &cs.Crit{Op: "not", Sub: []*cs.Crit{a}}
 	}
-	return &cs.Crit{Op: rapid.SampledFrom([]string{"or", "or", "and"}).Draw(t, "pair-conn"), Sub: []*cs.Crit{a, b}}
+	return &cs.Crit{Op: rapid.SampledFrom([]string{"or", "and"}).Draw(t, "pair-conn"), Sub: []*cs.Crit{a, b}}
 }
 
 func (e *CritEnv) crit(t *rapid.T, depth int) *cs.Crit {
